@@ -863,8 +863,33 @@ def same_snap(a, b):
 # constructors, sampling, polar conversion
 
 def gen_ctor(rng, big):
-    fam = str(rng.choice(['uniform', 'focal', 'focal', 'pupil', 'pupil', 'sample', 'sample', 'polar', 'pshift']))
+    fam = str(rng.choice(['uniform', 'focal', 'focal', 'pupil', 'pupil', 'sample', 'sample', 'polar', 'pshift', 'hex', 'focalfull']))
     maxn = 8 if not big else 24
+    if fam == 'hex':
+        c = None if rng.random() < 0.4 else [float(rng.choice([0.0, 0.5, -1.25, 3.0, 10.0])), float(rng.choice([0.0, 0.5, -1.25, 3.0]))]
+        return {'family': fam, 'd': float(rng.choice([1.0, 0.5, 2.0, 0.125, 3.0, 1.5])), 'rings': int(rng.integers(0, 5 if not big else 9)),
+                'pointy': bool(rng.random() < 0.5), 'center': c}
+    if fam == 'focalfull':
+        qs = [1.0, 2.0, 1.5, 3.0, 4.0, 2.5]
+        nas = [1.0, 2.0, 3.0, 0.5, 1.5, 2.5, 4.0]
+        q, na = float(rng.choice(qs)), float(rng.choice(nas))
+        while 2 * na * q < 1:
+            na *= 2
+        def opt(vals, p):
+            return float(rng.choice(vals)) if rng.random() < p else None
+        path = str(rng.choice(['sr', 'fnum', 'pdfl', 'none', 'mixed', 'mixed']))
+        kw = {'sr': None, 'fnum': None, 'pd': None, 'fl': None, 'wl': None}
+        if path == 'sr':
+            kw['sr'] = float(rng.choice([1.0, 0.5, 2.0, 0.015625]))
+            kw['wl'] = opt([1.0, 0.5], 0.3)
+        elif path == 'fnum':
+            kw['fnum'], kw['wl'] = float(rng.choice([10.0, 2.5, 40.0])), opt([1.0, 0.5, 0.000001], 0.8)
+        elif path == 'pdfl':
+            kw['pd'], kw['fl'], kw['wl'] = float(rng.choice([1.0, 0.5, 8.0])), float(rng.choice([1.0, 10.0, 2.5])), opt([1.0, 0.5], 0.8)
+        elif path == 'mixed':
+            kw = {'sr': opt([1.0, 0.5], 0.2), 'fnum': opt([10.0, 2.5], 0.3), 'pd': opt([1.0, 0.5, 8.0], 0.5), 'fl': opt([1.0, 10.0], 0.5),
+                  'wl': opt([1.0, 0.5], 0.5)}
+        return dict({'family': fam, 'q': q, 'na': na}, **kw)
     if fam == 'uniform':
         ndim = int(rng.choice([1, 2, 2, 3]))
         return {'family': fam, 'dims': [int(rng.integers(1, maxn + 1)) for _ in range(ndim)],
@@ -985,7 +1010,9 @@ def check_ctor(case):
             qq = [Fraction(round_half_even(x), n) for x, n in zip(exactq, dims)]
             slack = [abs((Fraction(n) * Fraction(f) * qv) - round(Fraction(n) * Fraction(f) * qv)) for n, f, qv in zip(dims, fov, qq)]
             exact_fov = all(Fraction(f).denominator & (Fraction(f).denominator - 1) == 0 and Fraction(f).denominator <= 2 ** 20 for f in fov)
-            lines.append('C11 uniform %s %s %s 0' % ('[' + ','.join(map(str, dims)) + ']', rat_list([diam, diam]), rat_list([0.0, 0.0])))
+            lines.append('C11 pupil %s %s' % ('[' + ','.join(map(str, dims)) + ']', rat_list([diam, diam])))
+            lines.append('C11 show 0')
+            checks.append((len(lines) - 1, pg))
             lines.append('C11 fft 0 %s %s %s %s' % (rat(TWO_PI), rat_list([q, q]), rat_list(fov), rat_list([0.0, 0.0])))
             lines.append('C11 scaled 1 s:%s' % rat(fl * 1 / TWO_PI))
             lines.append('C11 show 2')
@@ -993,6 +1020,53 @@ def check_ctor(case):
                 checks.append((len(lines) - 1, g))
             else:
                 checks.append((len(lines) - 1, None))
+        elif fam == 'hex':
+            d, n, pointy, cen = case['d'], case['rings'], case['pointy'], case['center']
+            g = hcipy.make_hexagonal_grid(d, n, pointy, None if cen is None else np.array(cen))
+            P = G.points(g)
+            c0 = np.array(cen if cen is not None else [0.0, 0.0])
+            pitch = d          # (the parameter called circum_diameter is the distance between neighbouring centres)
+            if len(P) != 1 + 3 * n * (n + 1):
+                bad.append(('hex-count', 'make_hexagonal_grid with %d rings has %d points, expected %d' % (n, len(P), 1 + 3 * n * (n + 1))))
+            else:
+                D2 = np.sqrt(((P[:, None, :] - P[None, :, :]) ** 2).sum(axis=2)) + np.eye(len(P)) * 1e9
+                if n >= 1 and not np.all(np.abs(D2.min(axis=1) - pitch) <= 1e-9 * max(1.0, pitch)):
+                    bad.append(('hex-pitch', 'hexagon centres are not %r apart from their nearest neighbours' % pitch))
+                if n >= 1:
+                    # flat top: neighbours along y at distance `pitch`; pointy top: along x
+                    ax = 0 if pointy else 1
+                    if not np.any(np.all(np.abs(P - (P[0] + np.eye(2)[ax] * pitch)) <= 1e-9 * max(1.0, float(np.max(np.abs(P)))), axis=1)):
+                        bad.append(('hex-orientation', 'no neighbour of the central hexagon along the %s axis (pointy_top=%r)' % ('xy'[ax], pointy)))
+                if not close_arr(P.mean(axis=0), c0, max(1.0, float(np.max(np.abs(c0))))) or not close_arr(P[0], c0, max(1.0, float(np.max(np.abs(c0))))):
+                    # make_hexagonal_grid is outside the binding statement of C11 (which names the focal-grid constructors): recorded
+                    # under its own key so that it is reported as the finding it is (D86), never mixed with the C11 clauses
+                    bad.append(('hex-centre', 'make_hexagonal_grid(%r, %d, pointy_top=%r, center=%r) is centred on %r' % (d, n, pointy, cen, P.mean(axis=0).tolist())))
+            wl = G.weight_list(g)
+            if wl is None or len(wl) != len(P) or not np.all(wl > 0) or not close_arr(wl, np.full(len(P), wl[0]), wl[0]):
+                bad.append(('hex-weights', 'weights of a hexagonal grid are not one positive constant'))
+            want_show('C11 hex %s %s %d %d %s %s' % (rat(float(np.sqrt(3))), rat(d), n, 1 if pointy else 0, rat(c0[0]), rat(c0[1])), g)
+            lines.append('C11 hexqr %d' % n)
+            checks.append((len(lines) - 1, ('hexqr', n, d, pointy, P - P[0][None, :])))   # relative to the central hexagon
+        elif fam == 'focalfull':
+            q, na = case['q'], case['na']
+            kw = {}
+            names = {'sr': 'spatial_resolution', 'fnum': 'f_number', 'pd': 'pupil_diameter', 'fl': 'focal_length', 'wl': 'reference_wavelength'}
+            for k_, name in names.items():
+                if case[k_] is not None:
+                    kw[name] = case[k_]
+            try:
+                g = hcipy.make_focal_grid(q, na, **kw)
+                st = 'ok'
+            except Exception as e:  # noqa
+                g, st = None, 'err ' + G.errkind(e)
+            lines.append('C11 focalfull %s %s %s' % (rat_list([q, q]), rat_list([na, na]), ' '.join('-' if case[k_] is None else rat(case[k_]) for k_ in ('sr', 'fnum', 'pd', 'fl', 'wl'))))
+            checks.append((len(lines) - 1, ('status', st)))
+            if g is not None:
+                ok, dd = has_origin(g)
+                if not ok:
+                    bad.append(('focal-origin make_focal_grid', 'make_focal_grid(q=%r, num_airy=%r, %r) has no point at the origin (nearest %.3g)' % (q, na, kw, dd)))
+                lines.append('C11 show 0')
+                checks.append((len(lines) - 1, g))
         elif fam == 'sample':
             spec, k = case['spec'], case['k']
             g = G.build(spec)
@@ -1149,6 +1223,14 @@ DIRECTED = [
     {'family': 'pupil', 'dims': [8, 8], 'diameter': 1.0, 'q': 2.0, 'na': 3.0, 'fl': 1.0},
     {'family': 'pupil', 'dims': [8, 4], 'diameter': 1.0, 'q': 1.5, 'na': 2.0, 'fl': 2.0},
     {'family': 'pupil', 'dims': [5, 5], 'diameter': 2.0, 'q': 3.0, 'na': None, 'fl': 1.0},
+    {'family': 'hex', 'd': 1.0, 'rings': 2, 'pointy': False, 'center': None},
+    {'family': 'hex', 'd': 0.5, 'rings': 1, 'pointy': True, 'center': [3.0, -1.25]},
+    {'family': 'hex', 'd': 2.0, 'rings': 0, 'pointy': False, 'center': [0.5, 0.5]},
+    {'family': 'focalfull', 'q': 2.0, 'na': 3.0, 'sr': None, 'fnum': 10.0, 'pd': None, 'fl': None, 'wl': 0.5},
+    {'family': 'focalfull', 'q': 2.0, 'na': 3.0, 'sr': None, 'fnum': None, 'pd': 0.5, 'fl': 10.0, 'wl': 1.0},
+    {'family': 'focalfull', 'q': 2.0, 'na': 3.0, 'sr': None, 'fnum': None, 'pd': None, 'fl': None, 'wl': None},
+    {'family': 'focalfull', 'q': 2.0, 'na': 3.0, 'sr': None, 'fnum': None, 'pd': None, 'fl': None, 'wl': 1.0},
+    {'family': 'focalfull', 'q': 2.0, 'na': 3.0, 'sr': None, 'fnum': 10.0, 'pd': None, 'fl': None, 'wl': None},
     {'family': 'uniform', 'dims': [4, 5], 'extent': [1.0, 2.5], 'center': [0.0, 0.5], 'hc': True},
     {'family': 'uniform', 'dims': [3], 'extent': [1.5], 'center': [-1.25], 'hc': False},
     {'family': 'sample', 'spec': S('c', 'reg', [[0.5, 1.0], [3, 2], [0.25, -0.5]]), 'k': [2, 2], 'scalar': True},
@@ -1284,6 +1366,7 @@ def run(ctx):
                 ctx.violation(key, what, case)
             sig = (fam, G_json(case))
             ctx.case(case if len(ctx.samples) < 6 and fam in ('focal', 'pupil', 'sample') else None, nontrivial_key=sig)
+            ctx.count('ctor:' + fam)
             plan.append(('ctor', case, checks, len(all_lines), None))
             all_lines += lines
     out = ctx.model(all_lines)
@@ -1368,6 +1451,23 @@ def run(ctx):
                 if g is None:
                     ctx.boundary_skipped += 1
                     continue
+                if isinstance(g, tuple) and g[0] == 'hexqr':
+                    # the axial coordinates the model enumerates, against the positions the code produced (centre removed)
+                    _, n_, d_, pointy_, rel = g
+                    try:
+                        qr = [tuple(int(v) for v in t.split(',')) for t in ans.split(' ', 1)[1].split(';')]
+                    except Exception:  # noqa
+                        qr = None
+                    ctx.count('hex:rings=%d' % n_)
+                    if qr is None or len(qr) != len(rel):
+                        dis(ctx, 'C11 hexqr', {'case': case, 'model': ans[:200]})
+                    else:
+                        xy = np.array([[(-q_ + r_) * d_ / 2, (q_ + r_) * d_ * np.sqrt(3) / 4 * 2] for q_, r_ in qr])
+                        if not pointy_:
+                            xy = xy[:, ::-1]
+                        if not close_arr(xy, rel, max(1.0, float(np.max(np.abs(rel))) if rel.size else 1.0)):
+                            dis(ctx, 'C11 hexqr', {'case': case, 'model': ans[:200], 'impl': rel.tolist()[:7]})
+                    continue
                 if isinstance(g, tuple):
                     if ans.split(' ')[0:2] != g[1].split(' ')[0:2] and not (ans.startswith('ok') and g[1] == 'ok'):
                         dis(ctx, 'C11 ctor status', {'case': case, 'impl': g[1], 'model': ans})
@@ -1375,7 +1475,9 @@ def run(ctx):
                 ms = G.parse_show(ans)
                 d = G.compare_show(ms, G.snap(g), G.get_weights(g))
                 if d is not None:
-                    dis(ctx, 'C11 ctor', {'case': case, 'diff': d, 'model': ans[:300]})
+                    # (a flat-topped hexagonal grid with an asymmetric centre: the model is the repaired code, finding D86)
+                    hexc = case['family'] == 'hex' and not case['pointy'] and case['center'] is not None and case['center'][0] != case['center'][1]
+                    dis(ctx, 'C11 ctor', {'case': case, 'diff': d, 'model': ans[:300]}, key='hex-centre' if hexc else None)
 
 
 def G_arg(op):
